@@ -667,6 +667,16 @@ class Walker:
             if fname in self.facts.ctors:
                 return self.construct(st, fname, argv, kwv, e)
         if isinstance(f, ast.Attribute):
+            if isinstance(f.value, ast.Name) and f.value.id == 'str' and argv and fname in ('lower', 'upper', 'casefold', 'strip',
+                                                                                          'lstrip', 'rstrip'):
+                # str.lower(x) is x.lower()
+                recv0 = argv[0]
+                if isinstance(recv0, (SStr, Unk)):
+                    s0 = as_str(recv0)
+                    if fname in ('strip', 'lstrip', 'rstrip') and len(argv) == 1:
+                        return self.strip(s0)
+                    if fname in ('lower', 'upper', 'casefold') and len(argv) == 1:
+                        return s0
             recv = self.ev(st, f.value)
             if fname in ('deepcopy', 'copy') and len(argv) == 1 and isinstance(f.value, ast.Name) and f.value.id == 'copy':
                 return self.copy_obj(st, argv[0])
